@@ -115,13 +115,17 @@ def load_probes(path):
     return hists
 
 
-def compare_and_monitor(opsf, robs, mobs, pid, spec, M, known, probes=None):
+def compare_and_monitor(opsf, robs, mobs, pid, spec, M, known, probes=None, run_monitors=True):
+    """run_monitors=False: DIFF-ONLY stream (the synthesised-state stream): model and implementation
+    observations are compared exactly as for every other stream (relevance by the property's keys),
+    but the property monitors are not run (a synthesised start state is not guaranteed reachable,
+    so a monitor alarm there would not be a violation of the property)"""
     ops = read_ops(opsf)
     probe_hists = load_probes(probes) if probes else None
     hist_no = -1
     res = dict(histories=0, ops=0, ok=0, err=0, first_diffs=0, relevant_diffs=0, opkinds={},
                monitor_checks=0, monitor_violations=[], relevant=[], known_hits={}, samples=[], explain=[])
-    mons = M.HISTORY_MONITORS.get(pid, [])
+    mons = M.HISTORY_MONITORS.get(pid, []) if run_monitors else []
     rb = blocks(robs)
     mb = blocks(mobs)
     hist_ops = []
